@@ -19,6 +19,7 @@ from pathlib import Path
 sys.path.insert(0, str(Path(__file__).resolve().parent))
 import lib  # noqa
 import c13_gen as gen  # noqa
+from c13 import mesh_at, apply_mod_py, new_connectivity, rebuild_history, strip  # noqa
 
 PID = 'C14'
 TOL_BITS = 40          # |impl - exact| <= 2^-40 * (1 + max |input|)
@@ -142,7 +143,8 @@ def metrics_by_id(mesh):
 # ------------------------------------------------------------------ impl
 def run_impl(ctx, cases, tag='impl'):
     spec = {'out': str(ctx.scratch / f'{tag}_out.json'),
-            'cases': [{'id': c['id'], 'mesh': c['mesh'], 'queries': c['queries']} for c in cases]}
+            'cases': [{'id': c['id'], 'mesh': c['mesh'], 'queries': c['queries'],
+                       'shared': bool(c.get('shared'))} for c in cases]}
     r = subprocess.run([lib.PY, str(lib.VERIF / 'harness' / 'c14_impl.py')],
                        input=json.dumps(spec), text=True, capture_output=True,
                        env=lib.impl_env(), timeout=1500)
@@ -333,11 +335,33 @@ Set Printing Depth 100000.
 
 
 def coq_check(ctx, cases, results, name):
+    """-> {case id: [failing step indices]}; history cases are cut into segments
+    of consecutive queries on the same mesh state"""
     out = {}
-    files, chunk, size = [], [], 0
+    entries = []
     for c in cases:
-        chunk.append(c)
-        size += len(c['queries'])
+        rs = results[c['id']]
+        eids = next((r['elem_ids'] for r in rs if 'elem_ids' in r), None)
+        if eids is None:
+            out[c['id']] = None
+            continue
+        out[c['id']] = []
+        cur, cur_mesh = [], None
+        for qi, q in enumerate(c['queries']):
+            if q['kind'] == 'mod':
+                continue
+            mk = q.get('_m', 0) if 'meshes' in c else 0
+            if cur and mk != cur_mesh:
+                entries.append((c, cur, mesh_at(c, cur[0]), eids))
+                cur = []
+            cur_mesh = mk
+            cur.append(qi)
+        if cur:
+            entries.append((c, cur, mesh_at(c, cur[0]), eids))
+    files, chunk, size = [], [], 0
+    for e in entries:
+        chunk.append(e)
+        size += len(e[1])
         if size >= 150:
             files.append(chunk)
             chunk, size = [], 0
@@ -345,19 +369,13 @@ def coq_check(ctx, cases, results, name):
         files.append(chunk)
     for fi, chunk in enumerate(files):
         items = []
-        for c in chunk:
+        for k, (c, idx, mesh, eids) in enumerate(chunk):
             rs = results[c['id']]
-            eids = next((r['elem_ids'] for r in rs if 'elem_ids' in r), None)
-            if eids is None:
-                out[c['id']] = None
-                continue
             qs = ';\n    '.join(
-                f"({q_to_coq(c['mesh'], q, eids)}, {qlit(tol_of(q))}, {res_to_coq(r)})"
-                for q, r in zip(c['queries'], rs))
-            items.append(f"({c['id']}%nat, check_ccase {gen.mesh_to_coq(c['mesh'], lib)}\n   "
+                f"({q_to_coq(mesh, c['queries'][qi], eids)}, {qlit(tol_of(c['queries'][qi]))}, "
+                f"{res_to_coq(rs[qi])})" for qi in idx)
+            items.append(f"({k}%nat, check_ccase {gen.mesh_to_coq(mesh, lib)}\n   "
                          f"{lib.coq_list([lib.coq_Z(e) for e in eids])}\n   [{qs}])")
-        if not items:
-            continue
         txt = HEADER + 'Definition cases : list (nat * list nat) := [\n' + ';\n'.join(items) + '].\n'
         txt += 'Goal True. idtac "@@ failing". Abort.\n'
         txt += ('Eval vm_compute in filter (fun c => match snd c with [] => false | _ => true end) '
@@ -365,16 +383,16 @@ def coq_check(ctx, cases, results, name):
         rc, o, err = ctx.coq_eval(f'{name}_{fi}', txt, timeout=900)
         if rc != 0:
             ctx.log('correspondence file failed to compile:', err[-600:])
-            for c in chunk:
+            for c, _, _, _ in chunk:
                 out[c['id']] = None
             continue
         t = lib.parse_marked(o).get('failing', '')
         t = t.split(': list')[0].replace('%nat', '')
-        got = {}
         for m in re.finditer(r'\((\d+),\s*\[([0-9;\s]*)\]\)', t):
-            got[int(m.group(1))] = [int(x) for x in re.findall(r'\d+', m.group(2))]
-        for c in chunk:
-            out.setdefault(c['id'], got.get(c['id'], []))
+            c, idx, _, _ = chunk[int(m.group(1))]
+            if out[c['id']] is not None:
+                out[c['id']] += [999 if int(x) == 999 else idx[int(x)]
+                                 for x in re.findall(r'\d+', m.group(2))]
     return out
 
 
@@ -446,6 +464,33 @@ def gen_cases(ctx):
             rescale(mesh, sc)
         mesh['tags']['scale'] = sc
         cases.append({'id': len(cases), 'mesh': mesh, 'queries': queries_for(ctx.rng, mesh)})
+    # history stream on ONE object: conversions / connectivity assignment
+    # (fem_data.elements.data = rows of other elements: shapes stay valid) / the
+    # same conversions again; the model is evaluated on the modified mesh
+    for c in [x for x in cases if len(x['mesh']['blocks']) == 1
+              and len(x['mesh']['blocks'][0][1]) > 1][::2]:
+        mesh = c['mesh']
+        t, rows = mesh['blocks'][0]
+        probe = [q for q in c['queries'] if q['kind'] == 'n2e' or
+                 (q['kind'] == 'e2n' and q['weight'] in ('false', 'implicit'))]
+        meshes, steps = [mesh], []
+        for rnd in range(2):
+            qs = copy.deepcopy(probe)
+            ctx.rng.shuffle(qs)
+            for q in qs:
+                q['_m'] = len(meshes) - 1
+            steps.extend(qs)
+            if rnd == 0:
+                k = ctx.rng.randint(1, len(rows) - 1)
+                conns = [cc for _, cc in rows]
+                conns = conns[k:] + conns[:k]
+                mod = {'kind': 'mod', 'op': 'set_conn', 'how': 'permute-rows', '_m': 0,
+                       'rows': {str(e): cc for (e, _), cc in zip(rows, conns)}}
+                steps.append(mod)
+                meshes.append(apply_mod_py(mesh, mod))
+                meshes[-1]['tags'] = mesh['tags']
+        cases.append({'id': len(cases), 'mesh': mesh, 'meshes': meshes, 'queries': steps,
+                      'shared': True, 'history': True})
     for i in range(3 if ctx.tier == 'quick' else 12):
         mesh = gen.gen_mesh(ctx.rng, kind=ctx.rng.choice(['tri', 'tet', 'hex']), n_unref=0)
         m, qs = malformed(ctx.rng, mesh)
@@ -461,7 +506,11 @@ def evaluate(ctx, cases, name):
         fails = []
         if not c['mesh'].get('tags', {}).get('malformed'):
             for qi, (q, r) in enumerate(zip(c['queries'], results[c['id']])):
-                d = oracle(c['mesh'], q, r)
+                if q['kind'] == 'mod':
+                    if 'exc' in r:
+                        fails.append((qi, 'in-place modification raised ' + r['exc']))
+                    continue
+                d = oracle(mesh_at(c, qi), q, r)
                 if d == 'unsupported':
                     unsupported += 1
                 elif d is not None:
@@ -510,6 +559,11 @@ def restrict_query(q, mesh):
 
 def shrink(ctx, case, qi, pred, rounds=6):
     cur = {'id': 0, 'mesh': case['mesh'], 'queries': [case['queries'][qi]]}
+    if case.get('shared'):
+        meshes, steps = rebuild_history(case['mesh'], case['queries'][:qi + 1])
+        for m in meshes:
+            m.setdefault('tags', case['mesh'].get('tags', {}))
+        return {'id': 0, 'mesh': case['mesh'], 'meshes': meshes, 'queries': steps, 'shared': True}
     for rd in range(rounds):
         cands = []
         for bi, (t, rows) in enumerate(cur['mesh']['blocks']):
@@ -566,11 +620,18 @@ def report(ctx, cases, ev, do_shrink=True):
                 budget -= 1
                 small = shrink(ctx, c, qi, lambda e2, i: any(
                     re.sub(r'[\d(].*', '', x[1]).strip()[:70] == cls for x in e2[1][i]))
-                sqi = 0
+                sqi = len(small['queries']) - 1 if small.get('shared') else 0
             r = run_impl(ctx, [small], tag='shrunk')[small['id']][sqi] if small is not c \
                 else results[c['id']][qi]
+            if c.get('history'):
+                sig = dict(sig, after_connectivity_assignment=any(
+                    x['kind'] == 'mod' for x in small['queries'][:sqi]))
             ctx.violation('impl-violation',
-                          {'mesh': describe(small['mesh']), 'query': small['queries'][sqi]},
+                          {'mesh': describe(small['mesh']), 'query': strip(small['queries'][sqi]),
+                           'shared_object': bool(small.get('shared')),
+                           'earlier_steps_on_the_same_object':
+                               [strip(x) for x in small['queries'][:sqi]]
+                               if small.get('shared') else []},
                           'conversion law of the property (' + d + ')', summarise(r),
                           'property oracle on the implementation / C14 theorems',
                           found_input=True, signature=sig, what=f"{q['kind']} "
@@ -601,10 +662,17 @@ def report(ctx, cases, ev, do_shrink=True):
             if do_shrink and budget > 0 and json.dumps(sig, sort_keys=True) not in ctx._seen_sigs:
                 budget -= 1
                 small = shrink(ctx, c, qi, lambda e2, i: bool(e2[2][i]) or e2[2][i] is None)
-                sqi = 0
-                r = run_impl(ctx, [small], tag='shrunk')[0][0]
+                sqi = len(small['queries']) - 1 if small.get('shared') else 0
+                r = run_impl(ctx, [small], tag='shrunk')[0][sqi]
+            if c.get('history'):
+                sig = dict(sig, after_connectivity_assignment=any(
+                    x['kind'] == 'mod' for x in small['queries'][:sqi]))
             ctx.violation('correspondence',
-                          {'mesh': describe(small['mesh']), 'query': small['queries'][sqi]},
+                          {'mesh': describe(small['mesh']), 'query': strip(small['queries'][sqi]),
+                           'shared_object': bool(small.get('shared')),
+                           'earlier_steps_on_the_same_object':
+                               [strip(x) for x in small['queries'][:sqi]]
+                               if small.get('shared') else []},
                           'Model.run_cquery = implementation within 2^-40 (1 + max|input|)',
                           summarise(r), 'correspondence C14 (Model.run_cquery)',
                           found_input=has_oracle, signature=sig,
@@ -680,15 +748,20 @@ def main(ctx):
         ctx.count('length_scale:%g' % tg.get('scale', 1.0))
         if tg.get('malformed'):
             ctx.count('malformed:' + tg['malformed'])
-        for q, r in zip(c['queries'], results[c['id']]):
+        ctx.count('object:' + ('history-with-connectivity-assignment' if c.get('history')
+                               else 'fresh-per-query'))
+        for qi, (q, r) in enumerate(zip(c['queries'], results[c['id']])):
+            if q['kind'] == 'mod':
+                continue
             nq += 1
             ctx.count('query:' + q['kind'] + (':' + q['mode'] + ':' + q['weight'] if q['kind'] == 'e2n' else ''))
             if q.get('weights'):
                 ctx.count('explicit_weight_magnitude:1e%d' % round(
                     __import__('math').log10(max(q['weights'].values()))))
             ctx.count('impl:' + ('raised ' + r['exc'] if 'exc' in r else 'array'))
-            ctx.case([describe(c['mesh']), q], nontrivial='rows' in r,
-                     sample={'mesh': describe(c['mesh']), 'query': q, 'impl': summarise(r)}
+            ctx.case([describe(mesh_at(c, qi)), strip(q), qi if c.get('shared') else 0],
+                     nontrivial='rows' in r,
+                     sample={'mesh': describe(mesh_at(c, qi)), 'query': strip(q), 'impl': summarise(r)}
                      if len(c['mesh']['nodes']) <= 6 else None)
     ctx.count('oracle:unsupported-by-femio', unsupported)
     n_oracle, n_corr = report(ctx, cases, ev)
@@ -715,14 +788,19 @@ def replay(path):
         print('nothing to replay on the implementation:', json.dumps(rp, indent=1)[:2000])
         return 1
     mesh = {'nodes': c['mesh']['nodes'], 'blocks': c['mesh']['blocks'], 'tags': {'kind': 'replay'}}
-    case = {'id': 0, 'mesh': mesh, 'queries': [c['query']]}
+    pre = c.get('earlier_steps_on_the_same_object', []) if c.get('shared_object') else []
+    meshes, steps = rebuild_history(mesh, pre + [c['query']])
+    for m in meshes:
+        m['tags'] = {'kind': 'replay'}
+    case = {'id': 0, 'mesh': mesh, 'meshes': meshes, 'queries': steps,
+            'shared': bool(c.get('shared_object'))}
     lib.coq_make(['C14/Model.vo'])
     try:
         VARIANT['by_id'] = detect_metric_variant()[0] == 'by_id'
     except (ValueError, SyntaxError, OSError) as e:
         print('metric variant not recognised:', e)
     results, oracle_fail, corr, _ = evaluate(ctx, [case], 'replay')
-    print('implementation:', json.dumps(summarise(results[0][0])))
+    print('implementation:', json.dumps(summarise(results[0][len(pre)])))
     print('property oracle:', oracle_fail[0] or 'holds')
     print('model agrees with implementation:', corr[0] == [] if corr[0] is not None else 'coq failed')
     bad = bool(oracle_fail[0]) or corr[0] is None or bool(corr[0])
